@@ -164,6 +164,15 @@ def Table.insert (t : Table) (a : InsArgs) : Table :=
   | some (i, k, d) => { t with slots := t.slots.setIfInBounds i (encode k d) }
   | none => t
 
+/-- `TranspositionTable::setBusy(ent, ply)`: the entry read by a probe is inserted again, marked busy, with the score it
+    shows at `ply` stored back at `ply`.  `k` is the key field of the probed entry (xor-ed with the contempt hash); the
+    repaired C++ removes the contempt hash before handing the key to `insert`, which applies it again (the pinned code did
+    not: with a non-zero contempt the record was stored a second time under the key `k ^ contempt`). -/
+def Table.setBusy (t : Table) (k d : W) (ply : Int) : Table :=
+  let m := (getMove d).toNat
+  t.insert { key := k ^^^ t.contempt, from_ := m % 64, to := m / 64 % 64, promote := m / 4096, score := getScore d ply, type := (getType d : Int),
+             ply := ply, depth := (getDepth d : Int), eval := getEvalScore d, busy := true }
+
 /-- `TranspositionTable::probe`: returns the entry (key, data) on a hit; refreshes the generation -/
 def Table.probe (t : Table) (key0 : W) : Table × Option (W × W) :=
   let key := key0 ^^^ t.contempt
